@@ -28,8 +28,7 @@ def is_real_system(f):
 EXPECTED_SYSTEM = {"open": "ref", "create_file": "mut", "create_dir": "mut", "is_dir": "ref", "is_file": "ref",
                    "list_dir": "ref", "rename": "mut", "get_modified": "ref", "is_executable": "ref",
                    "set_is_executable": "mut", "execute_command": "mut"}
-OS_PREFIXES = ("std::fs::", "std::process::Command", "std::process::exit", "std::process::abort", "std::process::Child", "std::os::",
-               "execute::", "std::env::set", "std::env::remove", "libc::", "tokio::fs::", "tokio::process::")
+import zero
 
 
 @rule("C08.R1", floor=11)
@@ -48,13 +47,8 @@ def c08_r1(ctx):
             ctx.viol((SYS, "receiver-kind", n), "System::%s changed its receiver kind to %s" % (n, k))
         else:
             ctx.ok()
-    for f in prod(ctx.P):
-        if is_real_system(f):
-            continue
-        for c in f.calls:
-            p = c.resolved or c.path
-            if any(c.path.startswith(x) or p.startswith(x) for x in OS_PREFIXES):
-                ctx.viol((f.id, "os-api-outside-real", c.path), "direct OS file/process API outside system/real.rs: the System boundary is bypassed", c.where)
+    for (f, c) in zero.os_api_calls([f for f in prod(ctx.P) if not is_real_system(f)]):
+        ctx.viol((f.id, "os-api-outside-real", c.path), "direct OS file/process API outside system/real.rs: the System boundary is bypassed", c.where)
 
 
 def mutator_sites(P):
@@ -1029,11 +1023,7 @@ def c06_r1(ctx):
     banned = ("Arc<", "Rc<", "Mutex<", "RwLock<", "Atomic", "RefCell<", "Cell<", "Condvar", "Barrier", "OnceLock", "OnceCell")
     for (pf, cs, cl) in R.spawns():
         ctx.inst("spawned closure %s" % cl.id, cs.where)
-        bad = []
-        for cap, t in zip(cl.body["captures"], cl.body["upvar_tys"]):
-            s = t["s"]
-            if any(b in s for b in banned) or s.startswith("&"):
-                bad.append("%s: %s" % (cap, s))
+        bad = zero.shared_captures(cl)
         if bad:
             ctx.viol((cl.id, "shared-capture"), "a thread closure captures shared mutable state (%s): results may depend on scheduling" % "; ".join(bad), cs.where)
         else:
